@@ -3,7 +3,7 @@
    `space`/`digit` = isspace/isdigit of the C locale; head_nondigit l = l is empty or starts with a non-digit;
    after l = the state a reader leaves when it stopped in front of l (eof when l is empty, good otherwise). *)
 From Coq Require Import ZArith List.
-From C19 Require Import Model ProofsBase ProofsInt ProofsRat ProofsElt ProofsHex ProofsPoly ProofsRefute ProofsDest ProofsPair ProofsBuf.
+From C19 Require Import Model ProofsBase ProofsInt ProofsRat ProofsElt ProofsHex ProofsPoly ProofsRefute ProofsDest ProofsPair ProofsBuf ProofsMore.
 Local Open Scope Z_scope.
 
 (* Integer: for every z, after any white space, followed by any text not starting with a digit:
@@ -82,9 +82,17 @@ Theorem C19_ruint_read_any_dest : Ruint_read_any_dest_stmt.                 Proo
 Print Assumptions C19_ruint_read_any_dest.
 Theorem C19_rint_read_any_dest : Rint_read_any_dest_stmt.                   Proof. exact rint_read_any_dest. Qed.
 Print Assumptions C19_rint_read_any_dest.
-(* Poly1Dom::read (resize, fill 0..0 1, store each coefficient at its index) on a variable holding any polynomial *)
+(* Poly1Dom::read (body of frag/C19.fix-5: long deg = -1; if (!i) return; deg < 0 -> zero polynomial; resize, fill 0..0 1, store each
+   coefficient at its index).  When a degree is extracted the result does not depend on what the variable held ... *)
 Theorem C19_poly_read_dest_independent : Poly_read_dest_independent_stmt.   Proof. exact poly_read_dest_independent. Qed.
 Print Assumptions C19_poly_read_dest_independent.
+(* ... and when none is (end of input, failed stream, bad text) the variable keeps its value and the stream has failbit *)
+Theorem C19_poly_read_no_degree : Poly_read_no_degree_stmt.                 Proof. exact poly_read_no_degree. Qed.
+Print Assumptions C19_poly_read_no_degree.
+(* HISTORY (body before the repair, `long deg; i >> deg; init(P, Degree(deg))`): undefined (None) exactly when no degree is assigned
+   or the degree is negative; equal to the repaired body whenever a degree >= 0 was extracted *)
+Theorem C19_poly_read_v0_history : Poly_read_v0_stmt.                       Proof. exact poly_read_v0. Qed.
+Print Assumptions C19_poly_read_v0_history.
 (* any polynomials in the reader's format, any white-space separator, into ONE variable: each comes back, with the stream state *)
 Theorem C19_poly_sequence : Poly_sequence_stmt.                             Proof. exact poly_sequence. Qed.
 Print Assumptions C19_poly_sequence.
@@ -100,3 +108,16 @@ Theorem C19_ruint_dec_buffer : Ruint_dec_buffer_stmt.                       Proo
 Print Assumptions C19_ruint_dec_buffer.
 Theorem C19_ruint_dec_buffer_tight : Ruint_dec_buffer_tight_stmt.           Proof. exact ruint_dec_buffer_tight. Qed.
 Print Assumptions C19_ruint_dec_buffer_tight.
+(* the read at the end of the input (`while (in >> x)` makes one more read than there are values): integers and, with the repaired
+   reader, polynomials: every value comes back, then the variable keeps the last one and the stream has eofbit|failbit *)
+Theorem C19_integer_sequence_eoi : Integer_sequence_eoi_stmt.               Proof. exact integer_sequence_eoi. Qed.
+Print Assumptions C19_integer_sequence_eoi.
+Theorem C19_poly_sequence_eoi : Poly_sequence_eoi_stmt.                     Proof. exact poly_sequence_eoi. Qed.
+Print Assumptions C19_poly_sequence_eoi.
+(* Integer on streams in hex mode (GMP honours basefield on both sides): sign and base-16 magnitude are read back, any following text
+   that does not start with a hex digit.  (Octal: model-compared only.) *)
+Theorem C19_integer_hex_roundtrip : Integer_hex_roundtrip_stmt.             Proof. exact integer_hex_roundtrip. Qed.
+Print Assumptions C19_integer_hex_roundtrip.
+(* rationals stored unreduced (Rational(n, d, 0), d > 1): printed as they are; the reader delivers the SAME VALUE in lowest terms *)
+Theorem C19_rational_unreduced_roundtrip : Rational_unreduced_roundtrip_stmt. Proof. exact rational_unreduced_roundtrip. Qed.
+Print Assumptions C19_rational_unreduced_roundtrip.
